@@ -18,6 +18,9 @@ def run(ck):
     P = scope.q_scope(ck, 5 if q else 6, 3, [2, 3]) + scope.q_scope(ck, 4, 5, [4])     # here "C" plays the role of k
     ck.exhaustive = True
     groups = [{"vals": g["vals"], "k": g["C"], "calls": [call("greedy", "iddict"), call("roundrobin", "iddict"), call("greedy", "list"), call("roundrobin", "list")]} for g in P]
+    for g in scope.p_scope(ck, 11 if q else 13, 2, 4):
+        if len(g["vals"]) >= 7 and g["k"] >= 2:
+            groups.append({"vals": g["vals"], "k": g["k"], "calls": [call("greedy", "iddict"), call("roundrobin", "iddict")]})
     fam = gen.part_families(ck.rng, 200 if q else 15000, maxn=12, maxv=30, maxk=5)
     for g in fam:
         g["calls"] = [call("greedy", "iddict"), call("roundrobin", "iddict")]
@@ -41,6 +44,13 @@ def run(ck):
         g = dict(g); g["orc"] = 0
         g["calls"] = [pcall(a, "iddict", extra=False) for a in COVERS]
         groups.append(g)
+    # "coarse" universes: longer sequences over very few values
+    for g in scope.q_scope(ck, 7 if q else 8, 2, [3, 4]):
+        if len(g["vals"]) >= 6:
+            g = dict(g); g["orc"] = 0; g["calls"] = [pcall(a, "iddict", extra=False) for a in FIT4]; groups.append(g)
+    for g in scope.q_scope(ck, 7 if q else 8, 3, [4, 6], minv=1):
+        if len(g["vals"]) >= 6:
+            g = dict(g); g["orc"] = 0; g["calls"] = [pcall(a, "iddict", extra=False) for a in COVERS]; groups.append(g)
     for g in gen.pack_families(ck.rng, 200 if q else 15000, maxn=14):
         g = dict(g); g["orc"] = 0
         g["calls"] = [pcall(a, "iddict", extra=False) for a in FIT4]
